@@ -599,8 +599,8 @@ def run_case(case, obs):
             ev = np.linalg.eigvalsh(Z.conj().T @ Z / n)
             lo = max(float(ev.min()), 0.0)
             conds[i] = float(ev.max() / max(lo, np.finfo(float).tiny))
-            if alphas[i] < 1 - 1e-12 and lo < 1e-13:
-                cov_tiny = True
+            # (the absolute-eps cut-off of the fractional matrix power, which made tiny-scale data a
+            # separate mechanism, was repaired in the repository: scale no longer matters, only cond(C))
         for i in range(nf):
             if alphas[i] < 1 - 1e-12 and conds[i] ** (1 - alphas[i]) > 1e8 and not cov_tiny:
                 obs.ambiguous(f"field {i}: cond(C)^(1-alpha) = {conds[i] ** (1 - alphas[i]):.2e}")
